@@ -84,6 +84,22 @@ func run(c *core.Ctx) {
 			}
 		}
 	}
+	var ln []string
+	for _, b := range longBoxes {
+		ln = append(ln, b.name)
+	}
+	c.Bound("canvas_many_blocks", fmt.Sprintf("boxes spanning %v storage blocks (block edge 6) x workers %v (processors limited to the worker count) x %v, whole and clipped by the domain", ln, workers, canvasEntries))
+	for _, e := range canvasEntries {
+		for k := range longBoxes {
+			for _, w := range workers {
+				if !c.Next() {
+					continue
+				}
+				oneCanvas(c, Case{e, longBase + k, w})
+				oneCanvas(c, Case{e, longBase + k, -w})
+			}
+		}
+	}
 }
 
 func data(n int) ([]vector3.Float64, []vector2.Float64, []float64) {
